@@ -383,9 +383,12 @@ def run_sort_harness(h, cases):
     res = []
     for i in range(len(cases)):
         l = lines[i].split(" ") if i < len(lines) else []
-        if len(l) == 4 and l[0] == "R":
+        if len(l) in (4, 5) and l[0] == "R":
             init = [] if l[1] == "-" else [unhex(x) for x in l[1].split(",")]
-            res.append(dict(init=init, rc=int(l[2]), out=parse_out(l[3]), line=lines[i]))
+            # 5th field (session 3c): F1 = fstree_sort_files left everything but fs->files / next_by_type / priority /
+            # flags / FLAG_FILE_ALREADY_MATCHED byte-identical (h_sort.c digest_fs)
+            res.append(dict(init=init, rc=int(l[2]), out=parse_out(l[3]), line=lines[i],
+                            frame=(l[4] == "F1") if len(l) == 5 else None))
         else:
             res.append(None)
     return r.returncode, res, r.stderr.decode("utf-8", "replace")
@@ -428,7 +431,7 @@ def tie_sort(ctx, h, drv, cases):
     m0 = run_model_sort(drv, items0)
     f08, broken, prop_bad = [], [], []
     nontriv = 0
-    stats = dict(cases=len(cases), refused=0, accepted=0, some_file_matched=0, quoted=0, glob=0, ties=0)
+    stats = dict(cases=len(cases), refused=0, accepted=0, some_file_matched=0, quoted=0, glob=0, ties=0, frame_checked=0)
     seen = set()
     for k, i in enumerate(idxs):
         r = res[i]
@@ -452,6 +455,12 @@ def tie_sort(ctx, h, drv, cases):
         if b"glob" in text:
             stats["glob"] += 1
         why = sort_oracle(text, r["init"], r["rc"], r["out"])
+        if not why and r.get("frame") is not None:
+            stats["frame_checked"] += 1
+            if not r["frame"]:
+                why = ("tree touched: fstree_sort_files changed a byte of the fstree_t or of a tree node outside fs->files, "
+                       "next_by_type, data.file.priority / .flags and FLAG_FILE_ALREADY_MATCHED (rc=%d) - 'none of these "
+                       "changes the tree'" % r["rc"])
         if why:
             prop_bad.append((i, why))
         if impl != m1[k]:
@@ -637,6 +646,19 @@ def compressible(chunk):
     return len(zlib.compress(chunk, 9)) * 10 < len(chunk) * 8
 
 
+def meta_view(im):
+    """everything the image says about the tree except where the file data lies: per inode number (type without the
+    basic/extended distinction, mode, uid/gid index, mtime, link count, xattr index, parent, directory listing size,
+    file size) and the inode number behind every file path"""
+    view = {}
+    for num, ino in im.inode_by_num.items():
+        t = ino["type"] if ino["type"] < 8 else ino["type"] - 7
+        view[num] = (t, ino["mode"], ino["uid"], ino["gid"], ino["mtime"], ino.get("nlink", 1),
+                     ino.get("xattr", 0xFFFFFFFF), ino.get("parent"), ino.get("size") if t == 1 else None,
+                     ino.get("file_size"))
+    return view, {p: i["num"] for p, i in im.files.items()}, list(im.dirs_seen)
+
+
 def tool_case(ctx, info, case, workdir):
     """Runs one tool-level case. Returns list of (signature, description)."""
     G, R = info["tools"]["gensquashfs"], info["tools"]["rdsquashfs"]
@@ -684,6 +706,15 @@ def tool_case(ctx, info, case, workdir):
     except Exception as e:  # noqa: BLE001
         return probs + [("tool:image-unreadable", "independent reader cannot decode the image: %r" % (e,))]
     content = dict(files)
+    # the sort stage changes nothing but the packing order: every inode (number, type, mode, owner, mtime, link count,
+    # xattr index, parent, sizes), every path -> inode number and the directory walk equal those of the image packed
+    # without directives (the tie behind the remark at Properties_C17.tree_unchanged_by_sort_file)
+    mv, bmv = meta_view(im), meta_view(bim)
+    if mv != bmv:
+        which = sorted(n for n in set(mv[0]) | set(bmv[0]) if mv[0].get(n) != bmv[0].get(n))[:4]
+        probs.append(("tree:metadata-differs", "inodes / paths of the image packed with -S differ from the image packed "
+                      "without directives: inode numbers %r: %r vs %r" % (which, [mv[0].get(n) for n in which],
+                                                                          [bmv[0].get(n) for n in which])))
     dropped = [k for k, f in enumerate(im.frags) if (f[1] & 0xFFFFFF) == 0]
     if dropped:
         users = sorted(p for p, i in im.files.items() if i["frag_idx"] in dropped)
@@ -1091,9 +1122,11 @@ def run(ctx):
             flagleg.report(ctx, fres, seen)
             ctx.coverage["evaluations"] = 1
         elif kind == "order":
-            case = {k: rp[k] for k in ("kind", "id", "mode", "bs", "files", "sortfile", "notail", "jobs", "shuffle")}
+            case = {k: rp[k] for k in ("kind", "id", "mode", "bs", "files", "sortfile", "notail", "jobs", "shuffle", "share")
+                    if k in rp}
             ores = orderleg.run_leg(ctx, info, [case])
             finish_order(ctx, info, ores, work, seen)
+            report_share(ctx, ores, seen)
             ctx.coverage["evaluations"] = 1
         elif kind == "pack":
             cases = [tuple(rp["case"])]
@@ -1146,12 +1179,17 @@ def run(ctx):
     n_order = 100 if quick else 3000
     if tie_broken or ctx.proof_broken:
         n_order *= 3
-    ocases = orderleg.directed_cases() + orderleg.gen_cases(ctx.seed, n_order)
+    n_share = 25 if quick else 600
+    ocases = orderleg.directed_cases() + orderleg.gen_cases(ctx.seed, n_order) + \
+        orderleg.directed_share_cases() + orderleg.gen_share_cases(ctx.seed, n_share)
     ores = orderleg.run_leg(ctx, info, ocases)
     ost = ores["stats"]
-    ctx.log("order leg: %d images (%d from a description file), sort file refused %d, reordered %d, mismatches %d"
-            % (ost["cases"], ost["mode_F"], ost["refused"], ost["reordered"], len(ores["bad"])))
+    ctx.log("order leg: %d images (%d from a description file), sort file refused %d, reordered %d, mismatches %d; "
+            "%d with coinciding contents: %d shared runs, strong layout statement violated on %d"
+            % (ost["cases"], ost["mode_F"], ost["refused"], ost["reordered"], len(ores["bad"]), ost["share_cases"],
+               ost["files_shared"], len(ores["share_bad"])))
     tie_broken |= finish_order(ctx, info, ores, work, seen)
+    report_share(ctx, ores, seen)
     ctx.coverage["evaluations"] += ost["cases"]
     ctx.coverage["traces_validated_against_impl"] += ost["cases"] - len(ores["bad"])
     ctx.coverage["distinct_nontrivial"] += ost["reordered"] + ost["refused"]
@@ -1265,10 +1303,27 @@ def order_oracle(info, c, work):
         return ("files packed in order %r, the directives demand %r (priorities %r; default order %r)"
                 % (real["packing"], want, [prio[p] for p in want], default))
     by_start = sorted(real["starts"], key=lambda p: real["starts"][p])
-    if by_start != [p for p in want if p in real["starts"]]:
+    if not c.get("share") and by_start != [p for p in want if p in real["starts"]]:
         return ("data start offsets %r do not follow the order the directives demand %r (contents are pairwise different, "
                 "nothing can be shared)" % ([(p, real["starts"][p]) for p in by_start], want))
     return None
+
+
+def report_share(ctx, ores, seen):
+    """the strong layout statement (layout_follows_order_strong / distinct_data_laid_out_in_order) evaluated by
+    orderleg.share_statement on real images whose files coincide on purpose: a violation is a concrete input"""
+    for c, probs in ores["share_bad"][:1]:
+        if "order:layout-share" in seen:
+            break
+        seen.add("order:layout-share")
+        rep = dict(c)
+        rep["files_readable"] = [(unhex(p).decode("latin-1"), len(unhex(d))) for p, d in c["files"]]
+        rep["sortfile_readable"] = unhex(c["sortfile"]).decode("latin-1")
+        rep["problems"] = probs[:4]
+        ctx.violation("order:layout-share", "gensquashfs %s -b %d%s -j %d with sort file %r on files with coinciding "
+                      "contents: %s (on %d images)"
+                      % ("-D" if c["mode"] == "D" else "-F", c["bs"], " -T" if c["notail"] else "", c["jobs"],
+                         unhex(c["sortfile"]).decode("latin-1"), probs[0][:500], len(ores["share_bad"])), rep)
 
 
 def finish_order(ctx, info, ores, work, seen):
